@@ -106,12 +106,21 @@ func generate(ctx *core.Ctx, fam family) ([]genCase, error) {
 	if len(out) == 0 {
 		return nil, core.Infra("Gen_Copier (%s) produced no cases", cfg)
 	}
-	sort.Slice(out, func(i, j int) bool { return out[i].key() < out[j].key() })
-	for i := 1; i < len(out); i++ {
-		if out[i].key() == out[i-1].key() {
+	keys := make(map[*genCase]string, len(out))
+	ptrs := make([]*genCase, len(out))
+	for i := range out {
+		ptrs[i] = &out[i]
+		keys[ptrs[i]] = out[i].key()
+	}
+	sort.Slice(ptrs, func(i, j int) bool { return keys[ptrs[i]] < keys[ptrs[j]] })
+	sorted := make([]genCase, len(out))
+	for i, p := range ptrs {
+		if i > 0 && keys[p] == keys[ptrs[i-1]] {
 			return nil, core.Infra("Gen_Copier (%s) wrote a case twice", cfg)
 		}
+		sorted[i] = *p
 	}
+	out = sorted
 	ctx.Logf("family %s: %d (graph, calls) cases from %d states", fam.name, len(out), res.Distinct)
 	return out, nil
 }
